@@ -9,7 +9,7 @@ from .. import vfcore as V
 
 PROP = "C20"
 TARGETS = ["theories/Observer/Proofs.vo"]
-GO_FILES = ["zz_verif_fakes_test.go", "zz_verif_observer_test.go"]
+GO_FILES = ["zz_verif_fakes_test.go", "zz_verif_observer_test.go", "zz_verif_routing_test.go"]
 
 I32MAX, I32MIN = 2**31 - 1, -2**31
 
@@ -77,6 +77,7 @@ def gen_history(rng, nops):
     # always finish with well-formed streams in every mode: they must be served
     for mode in MODES:
         impl.append("H %s 1 1 3 2 5" % mode); model.append("H %s 1 1 3 2 5" % mmode(mode))
+    impl += ["WC", "WC"]; model += ["WC", "WC"]    # twice: the first acknowledgement may still get through a sender that is wedging
     return impl, model
 
 
@@ -85,7 +86,7 @@ def systematic(tier="thorough"):
     hs = []
     for k, idx in enumerate(boundary_indices()):
         impl = ["N", "R %d 1" % idx, "R 7 1", "R %d -1" % idx, "H default 1 1 3 2 %d" % idx, "H routing 1 1 3 2 %d" % idx,
-                "H lcm 1 1 3 2 %d" % idx, "R 7 -1", "H default 1 1 3 2 5"]
+                "H lcm 1 1 3 2 %d" % idx, "R 7 -1", "H default 1 1 3 2 5", "H routing 1 1 3 %d 5" % idx, "H routing 1 %d 3 2 5" % idx, "WC", "WC"]
         hs.append((impl, list(impl)))
         # the same ids on a stream opened by a peer instance, in each of the four positions, followed by a well-formed one
         for pos in (range(4) if tier == "thorough" or k % 4 == 0 else (0, 2)):
@@ -100,8 +101,8 @@ def systematic(tier="thorough"):
             a = None if s == "-" else atoi_ok(s)
             mv = list(vals)
             mv[pos] = "-" if a is None else str(a)
-            impl = ["N", "H default 1 " + " ".join(vals), "H lcm 1 " + " ".join(vals), "H routing 1 " + " ".join(vals), "H intra 1 " + " ".join(vals), "H default 1 1 3 2 5", "H intra 1 1 3 2 5", "H intra0 1 " + " ".join(vals), "H intra0 1 1 3 2 5"]
-            model = ["N", "H default 1 " + " ".join(mv), "H lcm 1 " + " ".join(mv), "H routing 1 " + " ".join(mv), "H routing 1 " + " ".join(mv), "H default 1 1 3 2 5", "H routing 1 1 3 2 5", "H routing 1 " + " ".join(mv), "H routing 1 1 3 2 5"]
+            impl = ["N", "H default 1 " + " ".join(vals), "H lcm 1 " + " ".join(vals), "H routing 1 " + " ".join(vals), "H intra 1 " + " ".join(vals), "H default 1 1 3 2 5", "H intra 1 1 3 2 5", "H intra0 1 " + " ".join(vals), "H intra0 1 1 3 2 5", "WC", "WC"]
+            model = ["N", "H default 1 " + " ".join(mv), "H lcm 1 " + " ".join(mv), "H routing 1 " + " ".join(mv), "H routing 1 " + " ".join(mv), "H default 1 1 3 2 5", "H routing 1 1 3 2 5", "H routing 1 " + " ".join(mv), "H routing 1 1 3 2 5", "WC", "WC"]
             hs.append((impl, model))
     return hs
 
@@ -141,6 +142,8 @@ def run_both(hs, exe, tag, mode="new"):
         # an instance without an intra-proxy manager (no memberlist configured) refuses streams opened by a peer instance with
         # an error: same bookkeeping as the model's served stream, outcome 'rejected'
         ml = [m.replace("H served", "H rejected", 1) if op.startswith("H intra0 ") else m for op, m in zip(h[0], ml)]
+        # the witness stream pair is outside the model: it must simply keep working
+        ml = ["WC ok" if op == "WC" else m for op, m in zip(h[0], ml)]
         ih.append(impl[i:i + n]); mh.append(ml); i += n
     return None, ih, mh
 
@@ -150,7 +153,7 @@ def monitor(impl_lines):
     every well-formed stream opened with a reachable cluster is served"""
     bad = []
     for k, l in enumerate(impl_lines):
-        if "BLOCKED" in l or "locked=1" in l or " panic " in l or "crashed" in l:
+        if "BLOCKED" in l or "locked=1" in l or " panic " in l or "crashed" in l or l.startswith("WC stalled") or l.startswith("WC no-"):
             bad.append(k)
     return bad
 
